@@ -135,6 +135,9 @@ type env struct {
 	fault   string            // "error" | "close"
 	rclu    bool              // the cache node's Redis is of ClusterType (one server, model nodes are virtual)
 	mnodes  int               // number of model nodes
+	pkKind  string            // "small" | "big" | "str": see pkValue
+	pkID    map[string]int    // printed primary value -> model id
+	pkReal  map[string]string // printed primary value -> Redis key
 	real    map[string]string // logical key ("p:1", "i:a") -> Redis key
 	logical map[string]string // Redis key -> logical key
 	place   map[string]int    // logical key -> node (1-based)
@@ -153,27 +156,34 @@ type env struct {
 func pkey(id int) string      { return fmt.Sprintf("p:%d", id) }
 func ikey(name string) string { return "i:" + name }
 
-func toID(primary any) (int, error) {
-	switch x := primary.(type) {
-	case int64:
-		return int(x), nil
-	case int:
-		return x, nil
-	case float64:
-		return int(x), nil
-	case json.Number:
-		n, err := x.Int64()
-		return int(n), err
+// pkValue is the primary-key value that the database uses for model id under the configured
+// kind: a small integer, an integer above 2^53 (not representable as float64) or a string.
+func pkValue(kind string, id int) any {
+	switch kind {
+	case "big":
+		return int64(323427211229009810) + int64(id)
+	case "str":
+		return fmt.Sprintf("k%d", id)
 	}
-	return 0, fmt.Errorf("primary key of unexpected type %T", primary)
+	return int64(id)
+}
+
+// keyer builds the primary cache key the way generated model code does: prefix + %v of the
+// primary value handed over by the cache layer (decoded into `any`).
+func (e *env) keyer(primary any) string {
+	s := fmt.Sprint(primary)
+	if rk, ok := e.pkReal[s]; ok {
+		return rk
+	}
+	return "p:" + s // no row has this key; whatever the code does with it shows up in Redis
 }
 
 // newEnv starts the Redis nodes and builds the cached connection.  place gives for every
 // logical key the node it must live on; with more than one node the Redis key names get a
 // suffix chosen such that the cluster's consistent hash really puts them there (found by
 // storing a probe through the cache and looking where it arrives).
-func newEnv(nnodes int, place map[string]int, ids []int, names []string, expire, nfExpire time.Duration, fault, rtype string) (*env, error) {
-	e := &env{fault: fault, real: map[string]string{}, logical: map[string]string{}, place: place, ids: ids, names: names,
+func newEnv(nnodes int, place map[string]int, ids []int, names []string, expire, nfExpire time.Duration, fault, rtype, pkKind string) (*env, error) {
+	e := &env{pkKind: pkKind, pkID: map[string]int{}, pkReal: map[string]string{}, fault: fault, real: map[string]string{}, logical: map[string]string{}, place: place, ids: ids, names: names,
 		rclu: rtype == redis.ClusterType, mnodes: nnodes}
 	if e.rclu && fault != "error" {
 		return nil, fmt.Errorf("Redis-Cluster mode supports error-reply outages only")
@@ -213,8 +223,10 @@ func newEnv(nnodes int, place map[string]int, ids []int, names []string, expire,
 		e.conn = sqlc.NewConn(stubConn{}, cfg, opts...)
 	}
 	var lks []string
+	base := map[string]string{} // logical key -> Redis key name (before any placement suffix)
 	for _, id := range ids {
 		lks = append(lks, pkey(id))
+		base[pkey(id)] = "p:" + fmt.Sprint(pkValue(pkKind, id))
 	}
 	for _, nm := range names {
 		lks = append(lks, ikey(nm))
@@ -224,13 +236,16 @@ func newEnv(nnodes int, place map[string]int, ids []int, names []string, expire,
 		if !ok || want < 1 || want > nnodes {
 			return nil, fmt.Errorf("no placement for key %s", lk)
 		}
+		if _, ok := base[lk]; !ok {
+			base[lk] = lk
+		}
 		if nnodes == 1 || e.rclu {
-			e.real[lk], e.logical[lk] = lk, lk
+			e.real[lk], e.logical[base[lk]] = base[lk], lk
 			continue
 		}
 		found := false
 		for salt := 0; salt < 4000 && !found; salt++ {
-			rk := fmt.Sprintf("%s#%d", lk, salt)
+			rk := fmt.Sprintf("%s#%d", base[lk], salt)
 			if err := e.conn.SetCache(rk, 1); err != nil {
 				return nil, fmt.Errorf("placement probe: %v", err)
 			}
@@ -247,6 +262,10 @@ func newEnv(nnodes int, place map[string]int, ids []int, names []string, expire,
 		if !found {
 			return nil, fmt.Errorf("no key name found that places %s on node %d", lk, want)
 		}
+	}
+	for _, id := range ids {
+		s := fmt.Sprint(pkValue(pkKind, id))
+		e.pkID[s], e.pkReal[s] = id, e.real[pkey(id)]
 	}
 	return e, nil
 }
@@ -398,31 +417,22 @@ func (e *env) queryRow(id int) (row, string, error) {
 
 func (e *env) queryIndex(name string) (row, string, error) {
 	var r row
-	var cbErr error
-	err := e.conn.QueryRowIndex(&r, e.real[ikey(name)],
-		func(primary any) string {
-			id, err := toID(primary)
-			if err != nil {
-				cbErr = err
-			}
-			return e.real[pkey(id)]
-		},
+	err := e.conn.QueryRowIndex(&r, e.real[ikey(name)], e.keyer,
 		func(_ sqlx.Conn, v any) (any, error) {
 			e.qi++
 			for _, d := range e.db {
 				if d.Name == name {
 					*v.(*row) = d
-					return d.Id, nil
+					return pkValue(e.pkKind, int(d.Id)), nil
 				}
 			}
 			return nil, sqlc.ErrNotFound
 		},
 		func(_ sqlx.Conn, v, primary any) error {
 			e.qp++
-			id, err := toID(primary)
-			if err != nil {
-				cbErr = err
-				return err
+			id, ok := e.pkID[fmt.Sprint(primary)]
+			if !ok {
+				return sqlc.ErrNotFound // the database has no row with such a primary key
 			}
 			d, ok := e.db[int64(id)]
 			if !ok {
@@ -431,9 +441,6 @@ func (e *env) queryIndex(name string) (row, string, error) {
 			*v.(*row) = d
 			return nil
 		})
-	if cbErr != nil {
-		return r, "infra", cbErr
-	}
 	return r, e.classify(err), err
 }
 
@@ -599,9 +606,6 @@ func (cr *caseRunner) run(c kit.Case) (v kit.Verdict) {
 			}
 		case "qindex":
 			gotRow, gotRes, gotErr = e.queryIndex(kit.Str(st["name"]))
-			if gotRes == "infra" {
-				return infra(gotErr.Error())
-			}
 			if gotRes == "ok" {
 				gotRes = "row"
 			}
@@ -809,6 +813,7 @@ func envFromEnviron() (*env, error) {
 		Ids    []int          `json:"ids"`
 		Names  []string       `json:"names"`
 		RType  string         `json:"rtype"`
+		Pk     string         `json:"pk"`
 		Expire int            `json:"expire"`
 		NF     int            `json:"nf"`
 	}
@@ -816,7 +821,7 @@ func envFromEnviron() (*env, error) {
 		return nil, fmt.Errorf("VERIF_C06_CFG: %v", err)
 	}
 	return newEnv(cfg.Nodes, cfg.Place, cfg.Ids, cfg.Names, time.Duration(cfg.Expire)*time.Second,
-		time.Duration(cfg.NF)*time.Second, kit.Env("VERIF_C06_FAULT", "error"), cfg.RType)
+		time.Duration(cfg.NF)*time.Second, kit.Env("VERIF_C06_FAULT", "error"), cfg.RType, cfg.Pk)
 }
 
 // forEachCase streams the case file: one line is decoded at a time and only the lines of this
@@ -899,7 +904,7 @@ func TestVerifC06Concurrent(t *testing.T) {
 	rounds, readers := kit.EnvInt("VERIF_C06_ROUNDS", 40), kit.EnvInt("VERIF_C06_READERS", 16)
 	ids := []int{1, 2}
 	e, err := newEnv(1, map[string]int{"p:1": 1, "p:2": 1}, ids, nil,
-		time.Duration(kit.EnvInt("VERIF_C06_E", 30))*time.Second, time.Duration(kit.EnvInt("VERIF_C06_NF", 10))*time.Second, "error", redis.NodeType)
+		time.Duration(kit.EnvInt("VERIF_C06_E", 30))*time.Second, time.Duration(kit.EnvInt("VERIF_C06_NF", 10))*time.Second, "error", redis.NodeType, "small")
 	if err != nil {
 		tr.Emit(kit.M{"e": "infra", "msg": err.Error()})
 		return
